@@ -2,6 +2,7 @@
 import random, os, json, itertools, multiprocessing as mp
 from fractions import Fraction as F
 from ..common import Result, OUT, scratch, run_tlc, Machinery, tlc_error_excerpt, rat, quiet
+from ..common import fork_pool
 from .. import domains as D
 from ..calltrace import judge_calls
 
@@ -163,6 +164,8 @@ def work(t):
         with quiet():
             run_request(t, cands, E, VE, Ballot, PreferenceProfile)
         t["outcome"] = "ok"
+    except E.NonTermination:
+        return []      # a valid request whose count never ends (the recorded C01 finding on PluralityVeto): not a refusal, not a C20 matter
     except Exception as ex:  # noqa
         name = type(ex).__name__
         t["outcome"] = "ValueError" if isinstance(ex, ValueError) and name in ("ValidationError",) else name
@@ -346,7 +349,7 @@ def run(tier, seed, replay=None):
             res.violation("spec:MC_Validation:%s" % r["violated"], "the decision table violates %s" % r["violated"], {})
         reqs = requests(tier, seed)
     res.evaluations = len(reqs)
-    with mp.get_context("fork").Pool(16) as pool:
+    with fork_pool(16) as pool:
         traces = [t for ts in pool.imap_unordered(work, reqs, chunksize=16) for t in ts]
     traces.sort(key=lambda t: json.dumps({k: v for k, v in t.items() if not k.startswith("_")}, sort_keys=True))
     for t in traces:
